@@ -161,7 +161,7 @@ struct RadixEngine : Engine {
 
 	void *do_alloc(size_t n) {
 		sync_hook(); // a call into the allocator is a visible action (a preemption point between the tree's accesses before and after it)
-		char *p = (char *)obj_alloc(n, std::max<size_t>(16, sut_value_align(vmode))); // (the Allocator concept has no alignment argument: an allocator for over-aligned values returns suitably aligned blocks)
+		char *p = (char *)obj_alloc(n, std::max<size_t>(16, sut_value_align(vmode))); // (the Allocator concept has no alignment argument: blocks are aligned like malloc's, and to the value type if that asks for more) // (the Allocator concept has no alignment argument: an allocator for over-aligned values returns suitably aligned blocks)
 		blks.push_back({p, n, false});
 		allocs_in_op++;
 		return p;
@@ -399,5 +399,6 @@ extern "C" void *radix_alloc(size_t n) { return G->do_alloc(n); }
 extern "C" void radix_free(void *p, size_t n) { G->do_free(p, n); }
 extern "C" void radix_val_ctor(void *p) { G->val_ctor(p); }
 extern "C" void radix_val_dtor(void *p) { G->val_dtor(p); }
+extern "C" void radix_evil_addr(void) { violation("map_wrong_result", "the tree took the address of a value with unary & although the value type overloads operator& (the address of a stored value is that of its storage: std::addressof)"); }
 extern "C" void radix_arg_moved(void) { violation("map_wrong_result", "insert/find_or_insert moved from an argument the caller passed as an lvalue (arguments must be forwarded: the caller's object is gutted, and what it inserts next is not what it meant to)"); }
 Engine *sim::make_engine() { return new RadixEngine(); }
